@@ -1174,7 +1174,7 @@ func (pv *prover) summaryOf(callee *ssa.Function) boolSummary {
 	if callee.Blocks == nil || callee.Signature.Recv() == nil || len(callee.Blocks) > 12 {
 		return s
 	}
-	recv := callee.Params[0].Name()
+	recv := vname(callee.Params[0])
 	for _, b := range callee.Blocks {
 		ret, ok := b.Instrs[len(b.Instrs)-1].(*ssa.Return)
 		if !ok {
